@@ -208,7 +208,8 @@ fn origins(kind: Kind, calls: &[Call], reset: &Option<Vec<f64>>) -> Vec<usize> {
                 let mut found = UNKNOWN;
                 for j in (0..k).rev() {
                     if let Some(ng) = next_guess(kind, &calls[j], c) {
-                        if bits_eq(g, &ng) {
+                        let swapped = kind == Kind::Pure && g.len() == 3 && bits_eq(&[g[0], g[2], g[1]], &ng);
+                        if bits_eq(g, &ng) || swapped {
                             found = j + 1;
                             break;
                         }
@@ -537,7 +538,11 @@ fn match_state(kind: Kind, calls: &[Call], st: &Vle) -> usize {
     for (j, c) in calls.iter().enumerate() {
         if let Some(r) = &c.result {
             let hit = match kind {
-                Kind::Pure => bits_eq(r, &[st.vapor().temperature.to_reduced(), st.vapor().density.to_reduced(), st.liquid().density.to_reduced()]),
+                // (the hook records the two branches in iteration order; the returned equilibrium is ordered by density)
+                Kind::Pure => {
+                    bits_eq(r, &[st.vapor().temperature.to_reduced(), st.vapor().density.to_reduced(), st.liquid().density.to_reduced()])
+                        || bits_eq(r, &[st.vapor().temperature.to_reduced(), st.liquid().density.to_reduced(), st.vapor().density.to_reduced()])
+                }
                 Kind::Flash => {
                     let mut v = vec![st.vapor().temperature.to_reduced(), st.vapor().density.to_reduced(), st.liquid().density.to_reduced()];
                     v.extend(st.vapor().molefracs.iter());
@@ -592,12 +597,13 @@ fn record_pure(sys: &Sys, tmin_frac: f64, npoints: usize) -> Option<(TieCase, Ph
     ))
 }
 
-fn end_id(st: &Vle) -> Option<usize> {
+/// pure-component end points: 2000 = the one the traversal starts from, 2001 = the other one
+fn end_id_dir(st: &Vle, from_zero: bool) -> Option<usize> {
     let x = st.liquid().molefracs[0];
     if x == 0.0 {
-        Some(2000)
+        Some(if from_zero { 2000 } else { 2001 })
     } else if x == 1.0 {
-        Some(2001)
+        Some(if from_zero { 2001 } else { 2000 })
     } else {
         None
     }
@@ -613,6 +619,8 @@ fn record_binary(sys: &Sys, t_frac: f64, npoints: usize, x_lle: Option<(f64, f64
     if calls.is_empty() {
         return None;
     }
+    let from_zero = x_lle.is_some() || calls[0].spec[3] < 0.5;
+    let end_id = |s: &Vle| end_id_dir(s, from_zero);
     let (assembly, n1) = match x_lle {
         None => ("binary_bubble".to_string(), calls.len()),
         Some(_) => {
@@ -1061,7 +1069,7 @@ fn main() {
         let b = rng.range(0.55, 0.75);
         if let Some((case, dia)) = record_binary(sys, tf, 2 * n, Some((a, b))) {
             for s in &dia.states {
-                if end_id(s).is_none() {
+                if end_id_dir(s, true).is_none() {
                     let x1 = s.liquid().molefracs[0];
                     let t = s.vapor().temperature.to_reduced();
                     let alone = bubble_at(&sys.eos, t, x1, None, None);
@@ -1078,7 +1086,7 @@ fn main() {
             let tsc = (tl + rng.range(0.1, 0.6) * (th - tl)) / tl;
             if let Some((case, dia)) = record_binary(sys, tsc, 8 + rng.below(8), None) {
                 for s in &dia.states {
-                    if end_id(s).is_none() && !is_crit(s) {
+                    if end_id_dir(s, true).is_none() && !is_crit(s) {
                         let x1 = s.liquid().molefracs[0];
                         let t = s.vapor().temperature.to_reduced();
                         let alone = bubble_at(&sys.eos, t, x1, None, None);
